@@ -3,6 +3,7 @@ import hashlib
 
 from .apps import WApp
 from .env import World, client_link, rc_of
+from .simnet import unwrap
 from .sched import Scheduler
 from .adversary import ReorderDup, HoldPermute
 
@@ -52,6 +53,7 @@ class TwoParty:
             self.helper = self.b.call("input_code")
         self.drops_done = 0
         self.drops_skipped = 0
+        self.drop_kinds = {}
 
     def code_for_b(self):
         if "code_b" in self.cfg:
@@ -105,7 +107,7 @@ class TwoParty:
         return self.actions()
 
     # ---- faults
-    def drop(self, name):
+    def drop(self, name, how=None):
         """cut the mailbox connection of one client (only after its first successful open:
         a failure of the very first connection is documented as fatal)"""
         app = self.app(name)
@@ -116,8 +118,21 @@ class TwoParty:
         if link is None:
             self.drops_skipped += 1
             return False
-        self.world.reactor.cut(link)
+        how = how or "cut"
+        if how == "blackhole":
+            # nobody is told: the websocket layer finds out by ping timeout
+            self.world.reactor.blackhole(link)
+        elif how == "server-close":
+            # the server ends the connection with a clean websocket close handshake
+            sp = unwrap(link.ends[1].protocol)
+            try:
+                sp.sendClose(1001, "going away")
+            except Exception:
+                self.world.reactor.cut(link)
+        else:
+            self.world.reactor.cut(link)
         self.drops_done += 1
+        self.drop_kinds[how] = self.drop_kinds.get(how, 0) + 1
         return True
 
     def both_connected_once(self):
@@ -221,11 +236,13 @@ def build_case(spec, max_msgs=12, max_size=2000, adversary=True):
         nd = rng.choice(spec.get("ndrops", [0, 1, 1, 2, 3, 4]))
         for _ in range(nd):
             who = rng.choice("AB")
-            sch.faults.append((rng.randint(5, 220), (lambda who=who: drv.drop(who)), "drop " + who))
+            how = rng.choice(spec.get("drop_kinds", ["cut", "cut", "cut", "blackhole", "server-close"]))
+            sch.faults.append((rng.randint(5, 220), (lambda who=who, how=how: drv.drop(who, how)), "%s %s" % (how, who)))
         sch.faults.sort(key=lambda f: f[0])
     elif kind == "sweep":
         for (k, who) in [(spec["drop_at"], spec["who"])] + [tuple(x) for x in spec.get("more_drops", [])]:
-            sch.faults.append((k, (lambda who=who: drv.drop(who)), "drop " + who))
+            how = spec.get("how", "cut")
+            sch.faults.append((k, (lambda who=who, how=how: drv.drop(who, how)), "%s %s" % (how, who)))
         sch.faults.sort(key=lambda f: f[0])
     return world, drv, sch, cfg
 
